@@ -31,10 +31,11 @@ EXPLANATION = (
     'mantissas; (C01.8) nothing evaluation-dependent is stored on operator/operand nodes and operator trees '
     'evaluated twice on the same nodes with changed cell values use the values of that evaluation; (C01.9) '
     'parentheses, chains of one operator, mixed chains, and blanks around operators and at both ends leave / give '
-    'the expected trees.')
+    'the expected trees.'
+    ' (C01.10) one witness workbook holding the parenthesised / chained / plain formula twins side by side and operators over cells that hold 0, compiled and evaluated as written: every cell equals the same formula evaluated on its own. (C01.7) the scientific-notation guard is decided by tokenizing witness formulas.')
 NOT_DECIDED = ('that the tokenizer emits the right token stream for every rendering (blanks, '
                'redundant parentheses), and the numeric values computed')
-TRUSTED = ['Excel operator classes transcribed from the property statement (rules/common.py)']
+TRUSTED = ['Excel operator classes transcribed from the property statement (rules/common.py)', 'workbook scenarios: pandas storage of range arrays as row-major rows, numpy on Python numbers (IEEE results, 64-bit integer wrap), dateutil.parser.parse rejecting texts that are no dates, openpyxl address arithmetic, inspect.signature built from the FunctionDef']
 
 
 def _operators_table(ctx):
